@@ -5,7 +5,7 @@
 mod verif_kani_ffi_par {
     use toktrie::SimpleVob;
 
-    //@@ span parser/src/ffi_par.rs par_copy_span :: let mut num_copied = 0; ::: *step.mask_dest.add(eos / 32) |= 1 << (eos % 32); } }
+    //@@ span parser/src/ffi_par.rs par_copy_span :: let mut num_copied = 0; ::: @block_end
 
     struct ShimErr;
     impl ShimErr {
